@@ -207,6 +207,102 @@ fn ffi_overlap_case(rep: &Report, ffi: &Ffi, t: &Tuple, over_salt: bool) {
     }
 }
 
+/// `kv scrypt-child <lib|ffi> <extra_kib> <n> <r> <p> <dk> <pw_hex> <salt_hex>`: one derivation in a process whose
+/// address space is limited to what it uses now plus `extra_kib` (the "allocation answers" of the environment).
+/// Prints the derived key in hex; an allocation failure aborts the process (no value is returned).
+pub fn child_main(a: &[String]) -> ! {
+    let via = a[0].as_str();
+    let extra_kib: u64 = a[1].parse().unwrap();
+    let (n, rr, p, dk): (u32, u32, u32, usize) = (a[2].parse().unwrap(), a[3].parse().unwrap(), a[4].parse().unwrap(), a[5].parse().unwrap());
+    let pw = unhx(&a[6]);
+    let salt = unhx(&a[7]);
+    let ffi = if via == "ffi" { Some(Ffi::load()) } else { None };
+    let mut out = vec![0u8; dk];
+    // a panic must end the child at once (printing a backtrace needs memory the limit below does not leave)
+    std::panic::set_hook(Box::new(|_| unsafe { libc::_exit(101) }));
+    // current size of the address space, in bytes
+    let statm = std::fs::read_to_string("/proc/self/statm").unwrap_or_default();
+    let pages: u64 = statm.split_whitespace().next().and_then(|x| x.parse().ok()).unwrap_or(0);
+    let now = pages * 4096;
+    let lim = now + extra_kib * 1024;
+    let rl = libc::rlimit { rlim_cur: lim, rlim_max: lim };
+    unsafe {
+        libc::setrlimit(libc::RLIMIT_AS, &rl);
+    }
+    match &ffi {
+        Some(f) => unsafe { (f.f)(pw.as_ptr(), pw.len(), salt.as_ptr(), salt.len(), n, rr, p, out.as_mut_ptr(), dk) },
+        None => out = kestrel_crypto::scrypt(&pw, &salt, n, rr, p, dk),
+    }
+    println!("{}", hx(&out));
+    std::process::exit(0);
+}
+
+/// Memory pressure: the same derivation in child processes whose remaining address space is each value of a grid that
+/// brackets the size of scrypt's big table. A child may die of the failed allocation; a value it does return must be the
+/// RFC 7914 value ("within memory limits" never means "a different key").
+fn memory_pressure(rep: &Report) {
+    let seed = rep.seed;
+    let exe = std::env::current_exe().unwrap_or_else(|_| crate::report::machinery("current_exe"));
+    let mut jobs = vec![];
+    for (n, rr) in [(32768u32, 8u32), (32768, 16), (16384, 8)] {
+        let need_kib = 128u64 * n as u64 * rr as u64 / 1024;
+        let mut extra = 4096u64;
+        while extra <= need_kib + 16384 {
+            for via in ["lib", "ffi"] {
+                jobs.push((via, n, rr, extra, need_kib));
+            }
+            extra += rep.tier.pick(8192, 2048);
+        }
+    }
+    // several inputs per limit: which table entries a derivation looks up depends on the input
+    let inputs: Vec<(Vec<u8>, Vec<u8>)> = (0..rep.tier.pick(4usize, 8)).map(|i| (derive(seed, &format!("c18-mem-pw-{}", i), 5 + i), derive(seed, &format!("c18-mem-salt-{}", i), 16))).collect();
+    let jobs: Vec<(&str, u32, u32, u64, u64, usize)> = jobs.into_iter().flat_map(|(via, n, rr, extra, need)| (0..inputs.len()).filter(move |&i| i == 0 || (extra < need + 2048 && extra * 2 + 4096 > need)).map(move |i| (via, n, rr, extra, need, i))).collect();
+    let returned = std::sync::atomic::AtomicU64::new(0);
+    jobs.par_iter().for_each(|&(via, n, rr, extra, need_kib, ii)| {
+        let (pw, salt) = &inputs[ii];
+        rep.eval(1);
+        rep.nontrivial(format!("mem-{}-{}-{}-{}-{}", via, n, rr, extra, ii).as_bytes());
+        let want = hx(&r::scrypt(pw, salt, n as u64, rr as u64, 1, 32));
+        let child = std::process::Command::new(&exe).args(["scrypt-child", via, &extra.to_string(), &n.to_string(), &rr.to_string(), "1", "32", &hx(pw), &hx(salt)]).stdin(std::process::Stdio::null()).stderr(std::process::Stdio::null()).stdout(std::process::Stdio::piped()).spawn();
+        match child {
+            Err(e) => crate::report::machinery(&format!("cannot start the scrypt child: {}", e)),
+            Ok(mut ch) => {
+                // a child that neither returns nor dies within 20 s (e.g. stuck in its out-of-memory handler) returned no value
+                let t0 = std::time::Instant::now();
+                let status = loop {
+                    match ch.try_wait() {
+                        Ok(Some(st)) => break Some(st),
+                        Ok(None) if t0.elapsed().as_secs() > 20 => {
+                            let _ = ch.kill();
+                            let _ = ch.wait();
+                            break None;
+                        }
+                        Ok(None) => std::thread::sleep(std::time::Duration::from_millis(5)),
+                        Err(_) => break None,
+                    }
+                };
+                let mut stdout = String::new();
+                if let Some(mut so) = ch.stdout.take() {
+                    use std::io::Read;
+                    let _ = so.read_to_string(&mut stdout);
+                }
+                if status.map(|s| s.success()).unwrap_or(false) {
+                    returned.fetch_add(1, std::sync::atomic::Ordering::Relaxed);
+                    let got = stdout.trim().to_string();
+                    if got != want {
+                        rep.violation(
+                            &format!("{}/wrong-value-under-memory-pressure", via),
+                            json!({"via":via,"kind":"memory","n":n,"r":rr,"extra_kib":extra}),
+                            format!("scrypt(N={}, r={}, p=1) via {} with {} KiB of address space left (the table needs {} KiB) returned a value different from RFC 7914", n, rr, via, extra, need_kib),
+                        );
+                    }
+                }
+            }
+        }
+    });
+    rep.extra("memory_pressure_runs", json!({"runs":jobs.len(),"returned_a_value":returned.load(std::sync::atomic::Ordering::Relaxed)}));
+}
+
 pub fn run(rep: &'static Report) {
     let seed = rep.seed;
     rep.set_rule("E-GRID vs OpenSSL EVP_PBE_scrypt: full product N x r x p x dkLen, each axis swept completely with the others small, corner tuples, password/salt length grid incl. 0/63/64/65 and trailing-NUL variants; every tuple through the library and through the exported C function (dlopen of the cdylib built from the working tree) with guard bytes around all buffers. distinct non-trivial = distinct (via, password, salt, N, r, p, dkLen) tuples");
@@ -256,6 +352,7 @@ pub fn run(rep: &'static Report) {
         n_over += 2;
     }
     rep.extra("ffi_overlap_cases", json!(n_over));
+    memory_pressure(rep);
     rep.extra("library_tuples", json!(lib.len()));
     rep.extra("ffi_tuples", json!(ffi_t.len()));
     rep.sample(lib[lib.len() / 2].json("lib"));
@@ -265,6 +362,11 @@ pub fn run(rep: &'static Report) {
 }
 
 pub fn replay(rep: &'static Report, case: &Value) {
+    if case["kind"] == "memory" {
+        println!("  re-running the memory-pressure part of C18");
+        memory_pressure(rep);
+        return;
+    }
     let t = Tuple {
         pw: unhx(case["pw"].as_str().unwrap()),
         salt: unhx(case["salt"].as_str().unwrap()),
